@@ -89,10 +89,11 @@ func MultiPkgLookalikes() []*tv.Package {
 	deps := map[string]map[string]string{
 		"log":     {"log.go": "package log\n\nfunc Println(p *uint64, v uint64) {\n\t*p = *p + v\n}\n\nfunc Printf(p *uint64, v uint64) {\n\t*p = *p + v + v\n}\n\nfunc Print(p *uint64) {\n\t*p = 9\n}\n"},
 		"fmt":     {"fmt.go": "package fmt\n\nfunc Println(p *uint64) {\n\t*p = 7\n}\n\nfunc Printf(p *uint64, v uint64) {\n\t*p = v\n}\n"},
+		"plain":   {"plain.go": "package plain\n\nconst K uint64 = 5\n\ntype Pair struct {\n\tA uint64\n\tB uint64\n}\n\nfunc Inc(x uint64) uint64 {\n\treturn x + 1\n}\n"},
 		"util":    {"util.go": "package util\n\nfunc DPrintf(p *uint64, v uint64, w uint64) {\n\t*p = v + w\n}\n"},
 		"machine": {"machine.go": "package machine\n\nfunc UInt64Get(a []byte) uint64 {\n\treturn uint64(len(a)) + 100\n}\n\nfunc UInt64ToString(x uint64) uint64 {\n\treturn x + 5\n}\n"},
-		"disk":    {"disk.go": "package disk\n\nfunc Size() uint64 {\n\treturn 42\n}\n"},
-		"sync":    {"sync.go": "package sync\n\nfunc NewCond(x uint64) uint64 {\n\treturn x + 1\n}\n"},
+		"disk":    {"disk.go": "package disk\n\nfunc Size() uint64 {\n\treturn 42\n}\n\ntype Block struct {\n\tId uint64\n}\n\nconst BlockSize uint64 = 7\n"},
+		"sync":    {"sync.go": "package sync\n\nfunc NewCond(x uint64) uint64 {\n\treturn x + 1\n}\n\ntype Mutex struct {\n\tN uint64\n}\n\nfunc (m *Mutex) Lock() {\n\tm.N = m.N + 1\n}\n\nfunc (m *Mutex) Unlock() {\n\tm.N = m.N + 10\n}\n\ntype WaitGroup struct {\n\tK uint64\n}\n\nfunc (w *WaitGroup) Add(d uint64) {\n\tw.K = w.K + d\n}\n"},
 		"filesys": {"filesys.go": "package filesys\n\nfunc Names(x uint64) uint64 {\n\treturn x + 3\n}\n"},
 	}
 	type lk struct{ id, dep, src string }
@@ -107,6 +108,15 @@ func MultiPkgLookalikes() []*tv.Package {
 		{"mpl/user-machine-tostring", "machine", "func FN(x uint64) uint64 {\n\treturn machine.UInt64ToString(x)\n}"},
 		{"mpl/user-disk-size", "disk", "func FN(x uint64) uint64 {\n\treturn disk.Size() + x\n}"},
 		{"mpl/user-sync-newcond", "sync", "func FN(x uint64) uint64 {\n\treturn sync.NewCond(x)\n}"},
+		{"mpl/user-sync-mutex-new", "sync", "func FN(x uint64) uint64 {\n\tm := new(sync.Mutex)\n\tm.Lock()\n\tm.Unlock()\n\treturn m.N + x\n}"},
+		{"mpl/user-sync-mutex-param", "sync", "func FN(m *sync.Mutex) uint64 {\n\tm.Lock()\n\treturn m.N\n}"},
+		{"mpl/user-sync-waitgroup", "sync", "func FN(x uint64) uint64 {\n\tw := new(sync.WaitGroup)\n\tw.Add(x)\n\treturn w.K\n}"},
+		{"mpl/user-disk-block-type", "disk", "func FN(x uint64) uint64 {\n\tb := disk.Block{Id: x}\n\treturn b.Id + disk.BlockSize\n}"},
+		// the same user package under a local import name: the reference must still reach its definition
+		{"mpl/import-alias-call", "d2=plain", "func FN(x uint64) uint64 {\n\treturn d2.Inc(x) + d2.K\n}"},
+		{"mpl/import-alias-named-like-builtin", "log=plain", "func FN(x uint64) uint64 {\n\treturn log.Inc(x)\n}"},
+		{"mpl/import-alias-type", "d2=plain", "func FN(x uint64) uint64 {\n\tp := d2.Pair{A: x, B: 2}\n\treturn p.A + p.B\n}"},
+		{"mpl/import-dot", ".=plain", "func FN(x uint64) uint64 {\n\treturn Inc(x) + K\n}"},
 		{"mpl/user-filesys-names", "filesys", "func FN(x uint64) uint64 {\n\treturn filesys.Names(x)\n}"},
 	}
 	var out []*tv.Package
@@ -114,11 +124,15 @@ func MultiPkgLookalikes() []*tv.Package {
 		name := fmt.Sprintf("mpl%d", i)
 		fn := "F" + sanitize(c.id)
 		src := strings.ReplaceAll(c.src, "FN", fn)
-		pre := "import \"example.com/tvmod/" + name + "/" + c.dep + "\"\n"
+		depName, alias := c.dep, ""
+		if i := strings.Index(c.dep, "="); i >= 0 {
+			alias, depName = c.dep[:i]+" ", c.dep[i+1:]
+		}
+		pre := "import " + alias + "\"example.com/tvmod/" + name + "/" + depName + "\"\n"
 		file := "package " + name + "\n\n" + pre + "\n// " + c.id + "\n" + src + "\n"
 		from := strings.Count("package "+name+"\n\n"+pre+"\n", "\n") + 1
 		p := &tv.Package{Name: name, Files: map[string]string{"gen.go": file}, Prelude: pre,
-			Deps: map[string]map[string]string{c.dep: deps[c.dep]}}
+			Deps: map[string]map[string]string{depName: deps[depName]}}
 		p.Cases = []tv.Case{{ID: c.id, Func: fn, Reject: "may", File: "gen.go", FromLine: from, ToLine: strings.Count(file, "\n"), Src: src}}
 		out = append(out, p)
 	}
